@@ -129,6 +129,11 @@ func parseCodeDirectory(blob []byte, itype uint32) (*CodeDirectory, error) {
 	// read hash slots
 	hashBase := int(hdr.HashOffset)
 	hashLen := int(hdr.HashSize)
+	// all slots, special ones before hashBase and code ones after, must lie inside the blob
+	if hashLen == 0 || int64(hdr.SpecialSlotCount)*int64(hashLen) > int64(hashBase) ||
+		int64(hashBase)+int64(hdr.CodeSlotCount)*int64(hashLen) > int64(len(blob)) {
+		return nil, errors.New("code directory hash slots are out of bounds")
+	}
 	slot := func(i int) []byte {
 		hash := blob[hashBase+i*hashLen : hashBase+(i+1)*hashLen]
 		for _, c := range hash {
